@@ -66,8 +66,10 @@ pub fn marker(nonce: u64, k: usize) -> String {
 const FILE_NAMES: &[&str] = &[
     "a.txt", "b.txt", "page.html", "about.html", "data.json", "img.png", "photo.jpg", "app.js", "site.css", "doc.pdf", "noext", "archive.tar.gz",
     "x.y.z.txt", "page.html.gz", "app.js.map", "notes.txt.pdf", "data.json.bak", "photo.png.txt", "\u{fc}n\u{ef}.txt", "\u{434}\u{43e}\u{43a}.html", "table.csv", "icon.svg", "notes.md", "UPPER.TXT", "a-b_c.txt", "v1.2.html",
+    // characters that mean something in URLs, forms or shells but are plain characters in a file name
+    "a+b.txt", "c++.html", "report%20final.pdf", "100%.txt", "eq=uals.txt", "at@sign.txt", "tilde~file.txt", "comma,name.txt", "(paren).txt", "[bracket].txt", "dollar$.txt", "excl!.txt", "colon:name.txt", "%41.txt", "x%2Fy.txt", "plus+plus+.html",
 ];
-const DIR_NAMES: &[&str] = &["d1", "d2", "docs", "img", "sub", "\u{43f}\u{430}\u{43f}\u{43a}\u{430}", "a.b"];
+const DIR_NAMES: &[&str] = &["d1", "d2", "docs", "img", "sub", "\u{43f}\u{430}\u{43f}\u{43a}\u{430}", "a.b", "c++", "50%", "legacy"];
 
 pub fn pick_size(rng: &mut Rng, big: bool, request_size: i64) -> usize {
     let rs = request_size.max(1) as usize;
